@@ -1326,7 +1326,10 @@ fn declare_classical_helper(
 ) -> asg::Stmt {
     if let Some(initializer) = &initializer {
         if initializer.get_type().is_const() {
-            context.insert_const_value(symbol_id.clone().unwrap(), initializer.clone());
+            // If `symbol_id` is an error, `RedeclarationError` has already been logged.
+            if let Ok(symbol_id) = &symbol_id {
+                context.insert_const_value(symbol_id.clone(), initializer.clone());
+            }
         }
     }
     asg::DeclareClassical::new(symbol_id, initializer).to_stmt()
